@@ -348,8 +348,7 @@ Definition text_outcome (mk : string -> sval) (src : source) (v : sval) : outcom
   let t := text_of rf v in
   if text_kind (kind_of v) then Done true (DPtr (mk t)) OSrc buf
   else match buf with
-       | None => Done true (DPtr (mk t))
-                      (match mk t with VBytes _ => if slen t <=? dcap then OOld else OFresh | _ => OFresh end) None
+       | None => Done true (DPtr (mk t)) (if slen t <=? dcap then OFresh else OFresh) None   (* fresh, fitting or not (fix 53615f7) *)
        | Some pre => Done true (DPtr (mk t)) (OBuf (String.length pre)) (Some (pre ++ t)%string)
        end.
 
@@ -366,7 +365,7 @@ Proof.
     assert (A : assign_to_bytes dcap buf (DPtr (VBytes o)) src =
                 match buf with
                 | None => bind (to_bytes src) (fun ot => match ot with
-                            | Some t => eff buf (VBytes t) (if slen t <=? dcap then OOld else OFresh) | None => Ret None end)
+                            | Some t => eff buf (VBytes t) (if slen t <=? dcap then OFresh else OFresh) | None => Ret None end)
                 | Some pre => buffered VBytes pre src
                 end).
     { destruct F; subst; destruct v as [b|k z|f|f|s|s]; try discriminate T; try destruct k; reflexivity. }
@@ -390,7 +389,8 @@ Proof.
                 | Some pre => buffered VStr pre src
                 end).
     { destruct F; subst; destruct v as [b|k z|f|f|s|s]; try discriminate T; try destruct k; reflexivity. }
-    rewrite A. unfold buffered. rewrite E. destruct buf; reflexivity.
+    rewrite A. unfold buffered. rewrite E. destruct buf; [reflexivity|].
+    destruct (slen (text_of rf v) <=? dcap)%Z; reflexivity.
 Qed.
 
 Lemma text_foreign o : assign1 (DPtr (VBytes o)) SForeign = Done false (DPtr (VBytes o)) ONone buf
